@@ -131,6 +131,9 @@ func (ex *Explorer) newInterp() (*Interp, error) {
 func (in *Interp) runPath(entry *ssa.Function) (end pathEnd) {
 	in.pc = in.pc[:0]
 	in.pcSet = map[int32]bool{}
+	in.pins = nil
+	in.doms = nil
+	in.pinModel = nil
 	in.pos = 0
 	in.inputs = in.inputs[:0]
 	in.nIn = 0
@@ -223,6 +226,7 @@ func (ex *Explorer) worker(id int, wg *sync.WaitGroup) {
 	ex.stats.Steps += st.Steps
 	ex.stats.Unknowns += st.Unknowns
 	ex.stats.WitnessHits += st.WitnessHits
+	ex.stats.PinHits += st.PinHits
 	for k, v := range st.Ends {
 		ex.stats.Ends[k] += v
 	}
